@@ -201,8 +201,10 @@ def setup(cw: CW, scenario: str):
     return [iid], body, extra
 
 
-def run_point(kind: str, scratch: str, scenario: str, k: int | None, seed: int, survivors: int = 1, cycles: int = 3) -> dict:
-    """victim runs alone and is crashed after its k-th effect (k=None: never); then recovery + drain"""
+def run_point(kind: str, scratch: str, scenario: str, k: int | None, seed: int, survivors: int = 1, cycles: int = 3,
+              concurrent: bool = False) -> dict:
+    """victim runs (alone, or interleaved with a polling survivor when `concurrent`) and is crashed after its k-th effect
+    (k=None: never); then recovery + drain"""
     clock = VirtualClock()
     with clock:
         cw = CW(kind, scratch, clock)
@@ -212,7 +214,12 @@ def run_point(kind: str, scratch: str, scenario: str, k: int | None, seed: int, 
             cw.crash_at = k
             if k != 0:
                 cw.victim = cw.sched.spawn("V", body)
-                cw.sched.run(lambda r, s: r[0], max_steps=5000)
+                if concurrent:
+                    pre: list = []
+                    cw.sched.spawn("S-pre", cw.w.polling_runner("S", 1, pre, rounds=2))
+                    cw.sched.run(S.random_chooser(rng, 0.5), max_steps=5000)
+                else:
+                    cw.sched.run(lambda r, s: r[0], max_steps=5000)
             vtrace = [n for (who, n) in cw.effects if who == "V"]
             crashed = cw.victim is not None and cw.victim.crashed
             vexc = repr(cw.victim.exc) if cw.victim is not None and cw.victim.exc is not None else None
@@ -371,6 +378,28 @@ def main(ctx: Ctx) -> int:
                     ctx.violation(f"strand:client:{k}", f"{kind}/client: client killed after its effect #{k} ({out['crashed_after']}): {out['stranded']} of the "
                                   f"{out['accepted']} invocations it had been handed back are not finished: {out['stranded_status']}",
                                   {"kind": "crash-point", "backend": kind, "scenario": "client", "k": k, "seed": ctx.seed, "observed": out})
+        # ---- 4. interleavings before the crash: the victim and a polling survivor run concurrently (seeded schedules),
+        #         without a crash and with a crash at a seeded effect
+        n_seeds = 40 if ctx.thorough else 6
+        inter = 0
+        for kind in ("mem", "sqlite"):
+            for sc in ("run", "retry", "fail", "cc"):
+                for j in range(n_seeds):
+                    seed = ctx.seed * 1000 + j
+                    k = None if j % 2 == 0 else 1 + (seed // 2) % lengths[sc]
+                    out = run_point(kind, scratch, sc, k, seed, 1 + j % 2, concurrent=True)
+                    total += 1
+                    inter += 1
+                    nontrivial += 1 if out["crashed"] else 0
+                    if out["stranded"]:
+                        pos = len(out["vtrace"])
+                        key = f"strand:{sc}:fault-free-interleaved" if not out["crashed"] else f"strand:{ROLE[sc]}:{pos}"
+                        ctx.violation(key, f"{kind}/{sc}: victim and a polling survivor interleaved (seed {seed}), victim "
+                                      + (f"killed after its effect #{pos} ({out['crashed_after']})" if out["crashed"] else "never killed")
+                                      + f": the accepted invocation is left {out['stranded_status']} with {out['queue_end']} queue entries",
+                                      {"kind": "crash-point", "backend": kind, "scenario": sc, "k": k, "seed": seed, "survivors": 1 + j % 2,
+                                       "concurrent": True, "observed": out})
+        ctx.notes["interleaved_runs"] = inter
     finally:
         S.SQL_YIELD = True
         world.rm_scratch(scratch)
@@ -395,7 +424,8 @@ def replay(ctx: Ctx, path: str) -> int:
         if rp.get("kind") == "model":
             print(json.dumps(rp, indent=1))
             return 0
-        print(json.dumps(run_point(rp["backend"], scratch, rp["scenario"], rp["k"], rp["seed"], rp.get("survivors", 1)), indent=1, default=str))
+        print(json.dumps(run_point(rp["backend"], scratch, rp["scenario"], rp["k"], rp["seed"], rp.get("survivors", 1),
+                                   concurrent=rp.get("concurrent", False)), indent=1, default=str))
     finally:
         world.rm_scratch(scratch)
     return 0
